@@ -60,7 +60,7 @@ ASSUMPTIONS = [
     "str[len] == 0 is NOT a representation invariant of String (resize on an empty string leaves the end unterminated; the const char* conversion "
     "repairs lazily): the terminator is proved as postcondition of operator const char*() const",
     "covered members: constructors (default, copy, buffer, capacity), destructor, operator=, clear, attach, resize, reserve, append x3, prepend x2, "
-    "operator const char*() const, ==, !=, find(char), startsWith, endsWith, and the static scanners length(const char*) (index of the first NUL), find(const char*, char) (first occurrence before the NUL), compare(s1, s2, len) (memory safety only).  NOT covered: findLast(char) (its loop ends by comparing the one-before-start pointer `p >= start`; cbmc compares pointer offsets unsigned, so the loop does not terminate in the model -- the pattern is UB in the letter of the standard and works on flat memory; harness h_findLast_char kept but not registered), substr (goto-cc destroys the by-value return temporary before the caller copies it: spurious use-after-free; harness h_substr kept but not registered), compare, replace, case mapping, trim, token/split/join, libc-based find overloads, "
+    "operator const char*() const, ==, !=, find(char), startsWith, endsWith, and the static scanners length(const char*) (index of the first NUL), find(const char*, char) (first occurrence before the NUL), compare(s1, s2, len) (memory safety only).  NOT covered: replace(char,char) (a loop-contract unit exists, harness h_replace_char + contracts/string_replace.loops.json, but cbmc does not finish within 40 min), findLast(char) (its loop ends by comparing the one-before-start pointer `p >= start`; cbmc compares pointer offsets unsigned, so the loop does not terminate in the model -- the pattern is UB in the letter of the standard and works on flat memory; harness h_findLast_char kept but not registered), substr (goto-cc destroys the by-value return temporary before the caller copies it: spurious use-after-free; harness h_substr kept but not registered), compare, replace, case mapping, trim, token/split/join, libc-based find overloads, "
     "printf/scanf family (variadic libc), toBool/fromBool and the char(&)[N] templates (deleted by compat rule R2)",
     "Atomic::increment/decrement sequentially atomic (seam); thread interleavings of C09 not decided",
 ]
